@@ -256,7 +256,7 @@ pub fn nested_probe() {
     }
 }
 
-fn nest_scenario(n: usize) {
+fn nest_scenario(n: usize, full: bool) {
     for i in 0..n {
         new_node(i);
     }
@@ -271,20 +271,39 @@ fn nest_scenario(n: usize) {
         PROBE = Some(Cc::new(77u64));
         w().extra_bytes = (state::allocated_bytes().unwrap_or(0) - b0) as u64;
     }
+    // an extra program-held pointer to node 0 that a finalizer may release (it gets buffered by that)
+    if any_below(2) == 1 {
+        if let Some(c) = handle(0) {
+            let c = c.clone();
+            w().stash[0] = Some(c);
+        }
+    }
+    #[cfg(feature = "auto-collect")]
+    if any_below(2) == 1 {
+        // the buffered-objects trigger is armed (bytes alone would already trigger here; this exercises the other branch)
+        let _ = rust_cc::config::config(|c| c.set_buffered_objects_threshold(core::num::NonZeroUsize::new(1)));
+    }
     for i in 0..n {
         // what the finalizer and the destructor of node i do
-        w().fin_act[i] = match any_below(4) {
-            1 => F_COLLECT,
-            2 => F_ALLOC_NODE,
-            3 => F_PROBE,
-            _ => F_NONE,
-        };
-        w().drop_act[i] = match any_below(4) {
-            1 => D_COLLECT,
-            2 => D_TEMP,
-            3 => D_PROBE,
-            _ => D_NONE,
-        };
+        if full || i == 0 {
+            w().fin_act[i] = match any_below(5) {
+                1 => F_COLLECT,
+                2 => F_ALLOC_NODE,
+                3 => F_PROBE,
+                4 => F_UNSTASH_ALLOC,
+                _ => F_NONE,
+            };
+            w().drop_act[i] = match any_below(5) {
+                1 => D_COLLECT,
+                2 => D_TEMP,
+                3 => D_PROBE,
+                4 => D_ALLOC_NODE,
+                _ => D_NONE,
+            };
+        } else {
+            w().fin_act[i] = if any_below(2) == 1 { F_UNSTASH_ALLOC } else { F_NONE };
+            w().drop_act[i] = if any_below(2) == 1 { D_COLLECT } else { D_NONE };
+        }
     }
     for i in 0..n {
         if any_below(2) == 1 {
@@ -314,6 +333,16 @@ fn nest_scenario(n: usize) {
     oracle_rc(300);
     oracle_complete(300);
     oracle_buffer(300);
+    for i in 0..MAXN {
+        if w().stash[i].is_some() {
+            drop_stash(i);
+            oracle_safety(350);
+            oracle_rc(350);
+        }
+    }
+    collect_quiescent(4, 360);
+    oracle_safety(360);
+    oracle_complete(360);
     unsafe {
         check(NEST_BAD == 0, 341); // C12
         if NEST_DONE > 0 {
@@ -335,11 +364,16 @@ fn nest_scenario(n: usize) {
 
 #[no_mangle]
 pub fn h_nest_n2() {
-    nest_scenario(2);
+    nest_scenario(2, false);
+}
+
+#[no_mangle]
+pub fn h_nest_n2_full() {
+    nest_scenario(2, true);
 }
 
 #[no_mangle]
 pub fn h_nest_twin() {
-    nest_scenario(1);
+    nest_scenario(1, false);
     check(false, 9999);
 }
